@@ -86,6 +86,7 @@ pub fn run(ctx: &mut Ctx) {
         ctx.rep.count(&format!("kzg10/poly-{}", kind));
         ctx.rep.case(&format!("kzg10 s={} poly={} deg={}", supported, kind, p.coeffs.len()), Some(format!("kzg10/{}/{}", kind, p.coeffs.len())));
     }
+    crate::props_marlin::c08_rand_arith(ctx);
     generic::c08_all(ctx);
     ctx.flush_model("C08");
 }
